@@ -475,3 +475,17 @@ Lemma all_apis shell R cs q rs :
   run16 shell R ACmdBuild cs q rs = run16 shell R ACapSend [] q rs /\
   g_log (run16 shell R ACapAsync cs q rs) = g_log (run16 shell R ACapSend cs q rs).
 Proof. split; [apply command_api_same | apply async_same_log]. Qed.
+
+(* ---- link with C15: under pass-through middleware (in particular with no middleware at all) the event the
+   app receives is the C15 classification of the shell's answer to the request that reached it *)
+Lemma pass_stack_outcome_is_C15 shell R mime_charset decode json cs rs q ic ir :
+  pass_ids cs = Some ic -> pass_ids rs = Some ir ->
+  g_events (run16 shell R ACapSend cs q rs) =
+  t_events (run mime_charset decode json ACap XBytes (shell (pass_request (cs ++ rs) q))) /\
+  g_panicked (run16 shell R ACapSend cs q rs) =
+  t_panicked (run mime_charset decode json ACap XBytes (shell (pass_request (cs ++ rs) q))).
+Proof.
+  intros Hc Hr. unfold run16. rewrite (client_send_order shell R cs rs q ic ir Hc Hr).
+  unfold run, run_cap. destruct (client_send0 (shell (pass_request (cs ++ rs) q))) as [ra | e |]; simpl; try (split; reflexivity).
+  unfold finish16, emit. destruct (response_new ra); split; reflexivity.
+Qed.
